@@ -88,6 +88,26 @@ def param_kind(lf, i):
 def check_config(cfg, w, rep):
     check_removal_effects(cfg, w, rep)
     check_removed_is_absent(cfg, w, rep)
+    check_bucket_of_whole_digest(cfg, w, rep)
+
+
+def check_bucket_of_whole_digest(cfg, w, rep):
+    """(f) A full removal unlinks the key's *bucket file*: "every other index entry is unaffected" needs a bucket to belong to
+    one digest — its path uses the whole SHA-1 of the key (the last segment is the open-ended rest of the hex string), not a
+    prefix of it that other keys share (the bucket-path clause of the C17 descriptor, re-checked here)."""
+    from . import c17
+    R = w.roles
+    for p in R.bucket_path:
+        lf = w.prog.fns[p]
+        got = c17.segments(w, w.sym.of_place(lf.body, 0, ()), lf.path)
+        want = c17.ORACLE["bucket_path"]
+        if got == want:
+            rep.ob(cfg, "bucket-of-whole-digest", fn_key(lf), "`%s` names a bucket by the whole digest of the key: %s" % (short(p), "/".join(got)))
+        else:
+            rep.violation("bucket-digest:%s" % fn_key(lf),
+                          "`%s` builds %s instead of %s: if a bucket file does not stand for one whole digest, keys share buckets, and a full "
+                          "removal (which unlinks the bucket) removes other keys' entries too" % (short(p), got, want),
+                          loc=lf.body.loc(), config=cfg, rule="bucket-of-whole-digest")
 
 
 def check_removal_effects(cfg, w, rep):
